@@ -799,6 +799,21 @@ func doGetSub(args []vlib.Sx) (res result, err error) {
 		res.impl = "unknown-type"
 	}
 	res.labels = append(res.labels, fmt.Sprintf("getsub:ok-platform%d", p))
+	// A Macintosh byte table (format 0 under key (1,0)) maps Mac Roman codes:
+	// the glyph of code c must be found at the character mac.DecodeOne(c)
+	// (fixed finding c09-format0-mac-codes-not-translated: decodeFormat0
+	// ignored code2rune and handed out a *Format0 indexed by the rune).
+	if p == 1 && e == 0 && len(b) == 262 && b[0] == 0 && b[1] == 0 {
+		res.labels = append(res.labels, "getsub:mac-format0")
+		for c := 0; c < 256; c++ {
+			r := mac.DecodeOne(byte(c))
+			if g := sub.Lookup(r); int(g) != int(b[6+c]) {
+				res.fail = fmt.Sprintf("Macintosh format 0 subtable: Mac code 0x%02X (U+%04X) has glyph %d, Lookup(U+%04X) = %d", c, r, b[6+c], r, g)
+				res.sig = "c09-format0-mac-codes-not-translated"
+				break
+			}
+		}
+	}
 	return res, nil
 }
 
